@@ -141,6 +141,8 @@ structure Ctx where
   app : String
   mailbox : String := ""      -- `self._mailbox_id` (methods of Mailbox)
   fresh : String := ""        -- what `generate_mailbox_id()` returns
+  pick : Nat := 0             -- resolves `random.choice` in `_find_available_nameplate_id`
+  draws : List Nat := []      -- the results of `random.randrange` there
   params : List (String × SV) := []
 
 abbrev Env := List (String × SV)
